@@ -43,11 +43,30 @@ def _num(v):
     return v if isinstance(v, int) and not isinstance(v, bool) else 0
 
 
+_MARK: dict = {}
+
+
+def marker(owner, role):
+    """an annotation object that carries its owner: look-alike callables (closures of one factory share one
+    `__code__`) differ in their annotations, and whichever annotation ends up on a generated method says whose it is"""
+    t = _MARK.get((owner, role))
+    if t is None:
+        if len(_MARK) > 6000:
+            _MARK.clear()
+        t = _MARK[(owner, role)] = type("T" + role, (), {"owner": owner, "tok": "T" + role, "__module__": "c16types"})
+    return t
+
+
+def _annotated(fn, owner, first="v"):
+    fn.__annotations__ = {first: marker(owner, "in"), "return": marker(owner, "out")}
+    return fn
+
+
 def mk_conv(owner, tok, variant=0):
     def c(v):
         LOG.append(("c:" + tok, owner))
         return ["c:" + tok + (f"#{variant}" if variant else ""), v]
-    return _own(c, "c:" + tok, owner)
+    return _annotated(_own(c, "c:" + tok, owner), owner)
 
 
 def mk_conv_n(owner, tok, nargs):
@@ -55,7 +74,7 @@ def mk_conv_n(owner, tok, nargs):
     def c(v, *extra):
         LOG.append(("c:" + tok, owner))
         return ["c:" + tok + f"/{len(extra)}", v]
-    return _own(c, "c:" + tok, owner)
+    return _annotated(_own(c, "c:" + tok, owner), owner)
 
 
 def mk_factory_self(owner, tok):
@@ -365,9 +384,13 @@ def owned_objects(cls):
     seen, out = set(), []
 
     def walk(o, d):
-        if d > 10 or id(o) in seen or o is None or isinstance(o, (str, int, float, bool, bytes, type, types.ModuleType)):
+        if d > 10 or id(o) in seen or o is None or isinstance(o, (str, int, float, bool, bytes, types.ModuleType)):
             return
         seen.add(id(o))
+        if isinstance(o, type):
+            if isinstance(o.__dict__.get("owner"), str):
+                out.append(o)          # an owner-tagged annotation type
+            return
         try:
             ow = o.__dict__.get("owner") if inspect.isfunction(o) else None
         except Exception:  # noqa: BLE001
@@ -375,9 +398,15 @@ def owned_objects(cls):
         if isinstance(ow, str):
             out.append(o)
         if inspect.isfunction(o):
+            for v in list((getattr(o, "__annotations__", None) or {}).values()):
+                walk(v, d + 1)
             if o.__code__.co_filename.startswith("<attrs generated"):
+                # (attrs merges the globals of the class's module into those of the generated methods: those
+                # names are the module's, not something attrs handed to this class)
+                import sys
+                mod = getattr(sys.modules.get(getattr(o, "__module__", None) or ""), "__dict__", {})
                 for k, v in list(o.__globals__.items()):
-                    if k != "__builtins__":
+                    if k != "__builtins__" and mod.get(k, walk) is not v:
                         walk(v, d + 1)
             for cell in o.__closure__ or ():
                 try:
@@ -401,6 +430,8 @@ def owned_objects(cls):
             walk(o._validators, d + 1)
         elif isinstance(o, attr.Converter):
             walk(o.converter, d + 1)
+            walk(getattr(o, "__call__", None), d + 1)
+            walk(getattr(o, "_first_param_type", None), d + 1)
         elif isinstance(o, attr.Factory):
             walk(o.factory, d + 1)
         elif isinstance(o, (classmethod, staticmethod)):
@@ -471,7 +502,8 @@ def _deep_of(cls, allowed=None, full=True):
     out = {}
     d = cls.__dict__
     out["name"] = _safe(lambda: [cls.__name__, cls.__qualname__, cls.__module__, [b.__name__ for b in cls.__mro__]])
-    out["dunders"] = sorted(k for k in d if k.startswith("__") and k not in ("__doc__", "__dict__"))
+    # (`__slotnames__` is CPython's own cache, written by copy/pickle through copyreg._slotnames)
+    out["dunders"] = sorted(k for k in d if k.startswith("__") and k not in ("__doc__", "__dict__", "__slotnames__"))
     out["slots"] = canon(d.get("__slots__", "nodict"))
     out["match_args"] = canon(d.get("__match_args__", "absent"))
     out["own_setattr_flag"] = canon(getattr(cls, "__attrs_own_setattr__", "absent"))
@@ -497,7 +529,8 @@ def _deep_of(cls, allowed=None, full=True):
         f = d.get(m)
         if f is not None and slot_of(cls, m) == "gen":
             out["sig" + m] = attempt(lambda f=f: _ADDR.sub(" at 0x?", str(inspect.signature(f))))
-            out["ann" + m] = attempt(lambda f=f: sorted(getattr(f, "__annotations__", {})))
+            out["ann" + m] = attempt(lambda f=f: sorted((k, getattr(v, "__name__", str(v)))
+                                                        for k, v in getattr(f, "__annotations__", {}).items()))
     # behaviour probes
     del LOG[:]
     x = attempt(lambda: _blank(cls, RAW1) and None)
@@ -571,6 +604,34 @@ def decode_cells(fn, args_init):
     return out
 
 
+USE_OPS = ("fields", "fields_dict", "has", "asdict", "astuple", "evolve", "validate", "repr_eq_hash", "copy", "pickle",
+           "fingerprint")
+
+
+def plain_snapshot(cls):
+    """the own `__dict__` of a class attrs never decorated: nothing may ever be left behind on it"""
+    return sorted((k, id(v)) for k, v in cls.__dict__.items() if k != "__slotnames__")   # (CPython's copyreg cache)
+
+
+def in_thread(fn):
+    """run fn() in a fresh thread and hand its result (or exception) back"""
+    import threading
+    box = {}
+
+    def run():
+        try:
+            box["v"] = fn()
+        except BaseException as e:  # noqa: BLE001
+            box["e"] = e
+
+    t = threading.Thread(target=run)
+    t.start()
+    t.join()
+    if "e" in box:
+        raise box["e"]
+    return box.get("v")
+
+
 class UserMapping(collections.abc.Mapping):
     """a user's own read-only Mapping over a dict the user keeps (and may edit later)"""
 
@@ -599,6 +660,9 @@ class World:
         self.fp_bases = fp_bases
         self.sfx = case_suffix(case) + tag
         self.bases = {}
+        self.mids = {}
+        self.made = []
+        self.plain_dicts = []          # (non-attrs class, snapshot of its __dict__ at creation)
         self.roots = {}
         self.base_fp = {}
         self.shared = "S" + self.sfx            # owner of everything passed in through shared arguments
@@ -627,9 +691,22 @@ class World:
             "eqKey": [mk_key(S, "PK0", 0), mk_key(S, "PK1", 1)],
             "reprFn": [mk_repr(S, "PR0", 0), mk_repr(S, "PR1", 1)],
         }
-        self.cas = [self._ca_from_state(s, f"ca{j}") for j, s in enumerate(case["cas"])]
-        self.these = self._dictlike("these", {f["name"]: self._inline(f, "t") for f in case["these"]})
-        self.mk_dict = self._dictlike("mk", {f["name"]: self._inline(f, "m") for f in case["mkFields"]})
+        # harness-only: which thread creates the shared counting attrs, which thread runs the definitions
+        self.threads = dict({"cas": False, "defs": "main"}, **(case.get("threads") or {}))
+        self._worker = None
+
+        def make_cas():
+            if self.threads["cas"]:
+                for _ in range(3):
+                    attr.ib()                      # this thread has created a few fields before
+            self.cas = [self._ca_from_state(s, f"ca{j}") for j, s in enumerate(case["cas"])]
+            self.these = self._dictlike("these", {f["name"]: self._inline(f, "t") for f in case["these"]})
+            self.mk_dict = self._dictlike("mk", {f["name"]: self._inline(f, "m") for f in case["mkFields"]})
+
+        if self.threads["cas"]:
+            in_thread(make_cas)
+        else:
+            make_cas()
         for k in case["mkHooks"]:
             self.mk_dict[k] = {"__attrs_pre_init__": pre_init, "__attrs_post_init__": post_init, "__init__": own_init}[k]
         self.mk_names = [f["name"] for f in case["mkFields"]]
@@ -648,7 +725,7 @@ class World:
                 if k not in self.mk_bases:
                     self.mk_bases[k] = (self.base(k),)
             elif isinstance(st, dict) and "defDeco" in st:
-                self.base(st["defDeco"]["c"]["base"])
+                self.body_base(st["defDeco"]["c"])
 
     # --- shared argument containers of the chosen kinds
     def _dictlike(self, which, d):
@@ -781,6 +858,7 @@ class World:
             b = Exception
         elif kind == "plain":
             b = type("Base_plain" + self.sfx, (), ns)
+            self.plain_dicts.append((b, plain_snapshot(b)))
         elif kind in ("frozenDefine", "mutableDefine"):
             ns["__annotations__"] = {"b": int}
             b = attrs.define(frozen=(kind == "frozenDefine"))(type("Base_" + kind + self.sfx, (), ns))
@@ -819,6 +897,67 @@ class World:
                 self.base_fp[kind] = deep_of(b, self.allowed_of(b))
         return b
 
+    def body_base(self, facts):
+        """the class a body inherits from: the base of its kind, or (harness-only `plainMid`) an undecorated class in
+        between, shared by all bodies of the universe that ask for it"""
+        kind = facts["base"]
+        b = self.base(kind)
+        if not facts.get("x", {}).get("plainMid") or kind in ("object", "exc", "hookedDefine", "deepHooked"):
+            return b
+        m = self.mids.get(kind)
+        if m is None:
+            m = self.mids[kind] = type("Mid_" + kind + self.sfx, (b,), {"__module__": MODNAME, "__qualname__": "Mid_" + kind + self.sfx})
+            self.plain_dicts.append((m, plain_snapshot(m)))
+        return m
+
+    def universe_classes(self):
+        """every class of the universe a read-only use can be applied to, in a fixed order"""
+        out = [b for k, b in sorted(self.bases.items()) if k not in ("object", "exc")]
+        out += [b for _, b in sorted(self.roots.items())] + [m for _, m in sorted(self.mids.items())]
+        return out + [c for c in self.made]
+
+    def use(self, k):
+        """a read-only use of what exists (never a definition, never an operation on an argument)"""
+        import copy as _copy
+        import pickle as _pickle
+        objs = self.universe_classes()
+        if not objs:
+            return "done"
+        cls = objs[(k // len(USE_OPS)) % len(objs)]
+        op = USE_OPS[k % len(USE_OPS)]
+        prev = attr.validators.get_disabled()
+        try:
+            if op == "fields":
+                attr.fields(cls)
+            elif op == "fields_dict":
+                attr.fields_dict(cls)
+            elif op == "has":
+                attr.has(cls)
+            elif op == "fingerprint":
+                deep_of(cls, self.allowed_of(cls))
+            else:
+                inst = _blank(cls, RAW1) if hasattr(cls, "__attrs_attrs__") else cls()
+                if op == "asdict":
+                    attr.asdict(inst)
+                elif op == "astuple":
+                    attr.astuple(inst)
+                elif op == "evolve":
+                    attr.evolve(inst)
+                elif op == "validate":
+                    attr.validate(inst)
+                elif op == "repr_eq_hash":
+                    repr(inst), inst == _blank(cls, RAW1), attempt(lambda: hash(inst))
+                elif op == "copy":
+                    _copy.copy(inst)
+                elif op == "pickle":
+                    _pickle.dumps(inst)
+        except BaseException:  # noqa: BLE001 -- what a use returns or raises is not C16's business
+            pass
+        finally:
+            attr.validators.set_disabled(prev)
+            del LOG[:]
+        return "done"
+
     def allowed_of(self, cls):
         e = self.allowed.get(id(cls))
         return e[1] if e is not None and e[0] is cls else {self.shared: "shared"}
@@ -843,7 +982,7 @@ class World:
         api = x.get("fieldApi", "ib")
         self.cur_owner = f"K{self.n_classes}{self.sfx}"     # every callable created by this body belongs to this class
         self.cur_variant = x.get("variant", 0)
-        env = {"__name__": x.get("module", MODNAME), "Base": self.base(facts["base"])}
+        env = {"__name__": x.get("module", MODNAME), "Base": self.body_base(facts)}
         lines = [f"class {name}(Base):" if facts["base"] != "object" else f"class {name}:"]
         for i, f in enumerate(facts["fields"]):
             n = f["name"]
@@ -884,7 +1023,23 @@ class World:
 
     # --- steps
     def define(self, step):
-        """run a definition step; returns (Result json, class or None)"""
+        """run a definition step in the thread the scenario says; returns (Result json, class or None)"""
+        how = self.threads["defs"]
+        if how == "fresh":
+            return in_thread(lambda: self._define(step))
+        if how == "worker":
+            if self._worker is None:
+                import concurrent.futures
+                self._worker = concurrent.futures.ThreadPoolExecutor(max_workers=1)
+            return self._worker.submit(self._define, step).result()
+        return self._define(step)
+
+    def close(self):
+        if self._worker is not None:
+            self._worker.shutdown(wait=True)
+            self._worker = None
+
+    def _define(self, step):
         self.n_classes += 1
         try:
             if "defDeco" in step:
@@ -918,9 +1073,11 @@ class World:
         except BaseException as e:  # noqa: BLE001
             return {"err": {"e": exc4(e)}}, None
         try:
-            return result_of(cls), cls
+            r = result_of(cls)
         except BaseException as e:  # noqa: BLE001
             return {"err": {"e": "other"}}, None
+        self.made.append(cls)
+        return r, cls
 
     def user_op(self, step):
         try:
@@ -929,6 +1086,8 @@ class World:
                 self.cas[j].validator(mk_val(self.shared, f"ca{j}.op{n_valid(self.cas[j]._validator)}"))
             elif isinstance(step, dict) and "caDefault" in step:
                 self.cas[step["caDefault"]["j"]].default(_DEFAULT_METH)
+            elif isinstance(step, dict) and "use" in step:
+                return self.use(step["use"]["k"])
             elif step in ENV_OPS:
                 attr.validators.set_disabled(step == "validatorsOff")
             elif step == "valAppend":
